@@ -2,6 +2,8 @@ import ParryModel.Proto
 import ParryModel.C12.Model
 import ParryModel.C12.Driver2
 import ParryModel.C12.Driver3
+import ParryModel.C12.Driver4
+import ParryModel.C12.Driver5
 import ParryModel.C12.Polygon
 import Std.Data.HashMap
 /-! C12 protocol handlers. -/
@@ -273,6 +275,6 @@ def handler (fn : String) : Option Handler :=
               polyOracle none d
             | none => "fail unparsable-output")
         | none => "skip bad-args" }
-  | f => handler3 f
+  | f => match handler3 f with | some h => some h | none => match handler4 f with | some h => some h | none => handler5 f
 
 end C12
